@@ -7,13 +7,19 @@
 EXTENDS Naturals, Sequences, FiniteSets, TLC, Json, IOUtils
 Rec == ndJsonDeserialize(IOEnv.TRACE)
 VARIABLES l
+IsFence(k) == k \notin {"prose", "dir"}
+FenceChar(k) == IF k \in {"bt", "bt4", "bti"} THEN "bt" ELSE "tl"
+FenceLen(k) == IF k \in {"bt4", "tl4"} THEN 4 ELSE 3
+HasInfo(k) == k \in {"bti", "tli"}
+None == [ch |-> "none", len |-> 0]
 RECURSIVE OpenAfter(_, _)
 OpenAfter(ks, i) ==
-  IF i = 0 THEN "none"
+  IF i = 0 THEN None
   ELSE LET before == OpenAfter(ks, i - 1) k == ks[i] IN
-       IF k \notin {"bt", "tl"} THEN before
-       ELSE IF before = "none" THEN k ELSE IF before = k THEN "none" ELSE before
-IsCode(ks, i) == OpenAfter(ks, i - 1) # "none" \/ ks[i] \in {"bt", "tl"}
+       IF ~IsFence(k) THEN before
+       ELSE IF before = None THEN [ch |-> FenceChar(k), len |-> FenceLen(k)]
+       ELSE IF before.ch = FenceChar(k) /\ FenceLen(k) >= before.len /\ ~HasInfo(k) THEN None ELSE before
+IsCode(ks, i) == OpenAfter(ks, i - 1) # None \/ IsFence(ks[i])
 TraceInit == l = 1
 Step(e) ==
   IF e.ev = "Panic" THEN PrintT(<<"REJECT", l, "panic">>)
